@@ -7,6 +7,7 @@ import Driver.CollOps
 import Driver.GateOps
 import Driver.PipeOps
 import Driver.FilterOps
+import Driver.ValidOps
 open Lean Driver
 
 def dispatch (op : String) (j : Json) : Except String Json :=
@@ -30,6 +31,7 @@ def dispatch (op : String) (j : Json) : Except String Json :=
   | "pipe.sys" => pipeSys j
   | "filter.applies" => filterApplies j
   | "filter.case" => filterCase j
+  | "valid.case" => validCase j
   | "ping" => pure (Json.mkObj [("pong", true)])
   | _ => throw s!"unknown op {op}"
 
